@@ -1394,7 +1394,7 @@ def gen_cases(ctx):
         cases.append({"stream": stream, "spec": spec, "runs": runs, "exact": exact, "nontrivial": nontriv})
 
     # ---- 1. scalar / vector intervals: one operator
-    for _ in range(S(700, 12000)):
+    for _ in range(S(700, 7000)):
         op = rng.choice(OPS4)
         form = rng.choice(["II", "II", "IN", "NI", "AA", "AI", "IA"])
         dy = rng.random() < 0.7
@@ -1466,7 +1466,7 @@ def gen_cases(ctx):
                 add("ivl-vec-classes", {"f": "ivl-bin", "op": op, "form": form, "widened": which},
                     [{"x": x, "y": y}, {"x": x2, "y": y2}], exact=(dy and op != "div"), nontriv=(x != x2 or y != y2))
     # ---- 2. unary maps of an interval
-    for _ in range(S(500, 8000)):
+    for _ in range(S(500, 6000)):
         fn = rng.choice(["exp", "log", "sqrt", "abs", "pow2", "pow3", "tanh", "neg", "recip", "sin", "cos", "tan"])
         dy = rng.random() < 0.6
         sign = "pos" if fn in ("log", "sqrt") and rng.random() < 0.8 else None
@@ -1474,7 +1474,7 @@ def gen_cases(ctx):
         add("ivl-un", {"f": "ivl-un", "fn": fn}, [{"x": x}, {"x": x2}], exact=(dy and fn in ("abs", "pow2", "pow3", "neg")),
             nontriv=(x != x2))
     # ---- 3. nested interval expressions
-    for _ in range(S(600, 12000)):
+    for _ in range(S(600, 7000)):
         nv = rng.choice([1, 2, 3])
         div = rng.random() < 0.25
         t = rand_itree(rng, rng.choice([1, 2, 3, 3]), nv, div)
@@ -1487,7 +1487,7 @@ def gen_cases(ctx):
             nontriv=(b1 != b2 and bool(tree_vars(t))))
     # ---- 4. raw combination rules, small n (index arithmetic exhaustively exercised)
     signs = ["pos", "neg", "str", None, "pos0", "neg0"]
-    for _ in range(S(1500, 40000)):
+    for _ in range(S(1500, 18000)):
         n = rng.choice([1, 2, 2, 3, 3, 4, 5, 6])
         rule = rng.choice(["frechet", "frechet", "perfect", "opposite", "independent", "naive"])
         op = rng.choice(["add", "mul"])
@@ -1502,7 +1502,7 @@ def gen_cases(ctx):
         add("pb-raw", {"f": "pb-raw", "rule": rule, "op": op, "n": n, "widened": which},
             [{"x": x, "y": y}, {"x": x2, "y": y2}], True, nontriv=(x != x2 or y != y2))
     # ---- 5. public arithmetic at 200 steps, every dependency
-    for gi in range(S(170, 5000)):
+    for gi in range(S(170, 3200)):
         general = pick_general(rng)
         grid = grid_of(general)
         op = rng.choice(OPS4)
@@ -1569,7 +1569,7 @@ def gen_cases(ctx):
                                         "role": role, "touching": pos},
                             runs, exact=(general is not True and op != "div"))
     # ---- 6. number operands, negation, reciprocal
-    for _ in range(S(120, 3000)):
+    for _ in range(S(120, 2000)):
         general = pick_general(rng, 0.25, 0.15)
         grid = grid_of(general)
         kind = rng.choice(["num", "num", "num", "neg", "recip"])
@@ -1649,7 +1649,7 @@ def gen_cases(ctx):
         add("int-dtype", {"f": "ivl-bin", "op": op, "form": form, "widened": "both", "rep": "int"},
             [{"x": x, "y": y}, {"x": x2, "y": y2}], exact=(op != "div"), nontriv=(x != x2 or y != y2))
     # ---- 7. unary maps of a p-box
-    for _ in range(S(100, 2500)):
+    for _ in range(S(100, 1800)):
         general = pick_general(rng, 0.3, 0.2)
         grid = grid_of(general)
         fn = rng.choice(["exp", "log", "sqrt", "npexp", "npsqrt", "nplog", "sin", "cos", "tanh", "pow2", "pow3"])
@@ -1661,7 +1661,7 @@ def gen_cases(ctx):
         x, x2 = pair_box(rng, base, grid, keep_sign=(fn.endswith("log") or fn.endswith("sqrt")))
         add("pb-un", {"f": "pb-un", "fn": fn}, [{"x": x}, {"x": x2}], False, nontriv=(x != x2))
     # ---- 8. envelope, imposition
-    for _ in range(S(150, 4000)):
+    for _ in range(S(150, 2500)):
         general = pick_general(rng, 0.25, 0.15)
         grid = grid_of(general)
         agg = rng.choice(["env", "imp"])
@@ -1692,7 +1692,7 @@ def gen_cases(ctx):
         add("pb-agg", {"f": "pb-agg", "agg": agg, "api": api, "kinds": kinds}, [{"ops": ops1}, {"ops": ops2}], True,
             nontriv=(ops1 != ops2))
     # ---- 9. nested p-box expressions, depth <= 3
-    for _ in range(S(60, 2500)):
+    for _ in range(S(60, 1400)):
         general = pick_general(rng, 0.15, 0.05)
         grid = grid_of(general)
         nv = rng.choice([2, 2, 3])
@@ -1704,7 +1704,7 @@ def gen_cases(ctx):
         add("ptree", {"f": "ptree", "tree": t, "depth": tree_depth(t)}, [{"vars": v1}, {"vars": v2}], general is False,
             nontriv=(v1 != v2))
     # ---- 10. stacking
-    for _ in range(S(200, 5000)):
+    for _ in range(S(200, 3000)):
         k = rng.choice([2, 3, 5, 8, 13, 40, 120])
         dy = rng.random() < 0.6
         ps = [pair_ivl(rng, None, dy) for _ in range(k)]
@@ -1720,14 +1720,14 @@ def gen_cases(ctx):
         add("stack", {"f": "stack", "weights": w, "form": form, "k": k},
             [{"lo": lo1, "hi": hi1}, {"lo": lo2, "hi": hi2}], True, nontriv=(lo1 != lo2 or hi1 != hi2))
     # ---- 11. alpha-cuts
-    for _ in range(S(150, 3000)):
+    for _ in range(S(150, 2000)):
         general = pick_general(rng, 0.3, 0.2)
         x, x2 = pair_box(rng, base_box(rng, STEPS, None, general), grid_of(general))
         alpha = rng.choice([0.001, 0.999, 0.5, 0.0, 1.0, 0.0035, 0.25, float(pvals()[rng.randrange(STEPS)]),
                             (pvals()[7] + pvals()[8]) / 2, rng.random()])
         add("cut", {"f": "cut", "alpha": alpha}, [{"x": x}, {"x": x2}], True, nontriv=(x != x2))
     # ---- 12. mixed propagation: slicing with a fixed number of slices
-    for _ in range(S(40, 1200)):
+    for _ in range(S(40, 700)):
         general = pick_general(rng, 0.2, 0.1)
         grid = grid_of(general)
         d = rng.choice([2, 2, 2, 3])
@@ -1753,7 +1753,7 @@ def gen_cases(ctx):
         add("slice", spec, [{"vars": v1}, {"vars": v2}], exact=(general is False and strategy == "direct" and not tree_extreme(t)), nontriv=(v1 != v2))
     # ---- 12b. interval Monte Carlo: the pair (and a repetition) on ONE dependency object, default random_state,
     #            in both orders; the discretisation (the rows of levels drawn) has to be the same in every run
-    for gi in range(S(36, 900)):
+    for gi in range(S(36, 450)):
         general = pick_general(rng, 0.2, 0.1)
         grid = grid_of(general)
         d = rng.choice([2, 2, 2, 3])
@@ -1780,7 +1780,7 @@ def gen_cases(ctx):
                 "repeated": len(set(tree_vars(t))) != len(tree_vars(t))}
         add("imc", spec, [{"vars": v1}, {"vars": v2}], exact=(general is False and strategy == "direct" and not tree_extreme(t)), nontriv=(v1 != v2))
     # ---- 4b. raw rules on thin float boxes (theme C), small n
-    for _ in range(S(150, 3000)):
+    for _ in range(S(150, 2000)):
         n = rng.choice([2, 3, 4, 6])
         rule = rng.choice(["frechet", "perfect", "opposite", "independent", "naive"])
         op = rng.choice(["add", "mul"])
@@ -1797,7 +1797,7 @@ def gen_cases(ctx):
         add("pb-raw-thin", {"f": "pb-raw", "rule": rule, "op": op, "n": n}, [{"x": x, "y": y}, {"x": x2, "y": y2}], False,
             nontriv=(x != x2 or y != y2))
     # ---- 13. interval propagation (b2b) with a fixed discretisation
-    for gi in range(S(260, 8000)):
+    for gi in range(S(260, 6000)):
         d = rng.choice([2, 2, 3])
         strategy = rng.choice(["direct", "endpoints", "subinterval", "subinterval"])
         style = rng.choice(["direct", "endpoints"]) if strategy == "subinterval" else None
@@ -1840,6 +1840,11 @@ WITNESSES = [
      "spec": {"f": "b2b", "tree": ["b", "add", ["b", "mul", ["v", 0], ["v", 0]], ["v", 1]], "strategy": "subinterval", "style": "endpoints",
               "n_sub": 2, "monotone": False, "repeated": True, "d": 2},
      "runs": [{"box": [[-0.5, 0.5], [0.0, 0.0]]}, {"box": [[-0.5, 1.5], [0.0, 0.0]]}]},
+    # KF-C12-straddle-imposition-rounding: X / 3 under Frechet, X straddling zero: naive and Balch bounds touch and cross by one ulp
+    {"stream": "pb-bin-int", "exact": False,
+     "spec": {"f": "pb-bin", "op": "div", "dep": "f", "ykind": "pbox", "bare": False, "widened": "x", "rep": "float"},
+     "runs": [{"x": [[-16.0] * 195 + [20.0] * 5, [-16.0] * 195 + [20.0] * 5], "y": [[3.0] * STEPS, [3.0] * STEPS]},
+              {"x": [[-16.0] * 195 + [20.0] * 5, [20.0] * STEPS], "y": [[3.0] * STEPS, [3.0] * STEPS]}]},
     # regression cases: the interval sin/cos defects of C05 (repaired in /repo) seen through a pair of runs
     {"stream": "ivl-un", "exact": False, "spec": {"f": "ivl-un", "fn": "sin"}, "runs": [{"x": [-0.5, 0.0]}, {"x": [-1.5, 10.0]}]},
     {"stream": "pb-un", "exact": False, "spec": {"f": "pb-un", "fn": "cos"},
@@ -1972,6 +1977,9 @@ def tie_phase(ctx, c, impls, models, verbose=False):
             continue
         if not dom and im[0] == "err":
             continue                # outside the domain the real code rejects what the rational model can still evaluate
+        if im[0] == "err" and mo[0] == "ok" and "Imposition does not exist" in im[2] and spec.get("agg") != "imp":
+            ctx.bump("tie-skipped-rounding-raise")
+            continue                # naive and Balch bounds crossing by an ulp (KF-C12-straddle-imposition-rounding): oracle reports it
         if im[0] == "ok" and not finite(im):
             if not dom:
                 continue            # numpy inf/nan from a zero divisor: not representable in the model
@@ -2086,7 +2094,9 @@ def _oracle(ctx, c, impls, dep):
             if spec["f"] in ("pb-agg", "ptree") and (spec.get("agg") == "imp" or tree_has(spec.get("tree", ["v", 0]), ("imp",))) and i == 0:
                 ctx.bump("empty-imposition")
                 return
-            ctx.fail(features(spec, {"check": "raises", "symptom": "raises:" + im[1], "run": i}),
+            extra = {"error_is": "imposition-empty"} if ("Imposition does not exist" in im[2] and spec.get("agg") != "imp"
+                                                          and not tree_has(spec.get("tree", ["v", 0]), ("imp",))) else {}
+            ctx.fail(features(spec, {"check": "raises", "symptom": "raises:" + im[1], "run": i, **extra}),
                      {**case_json, "error": im[2]},
                      f"{stream}: run {i} raised {im[2]} on operands inside the domain of the operation")
             return
